@@ -5,7 +5,7 @@ import collections
 import json
 
 from .. import bg, common, gen, rowcheck, rowspec, sge
-from ..runner import Ctx, pool_map
+from ..runner import Ctx, coq_eval, coq_list, coq_z, pool_map
 
 CONTENT = ['mutator', 'vcf_alias', 'vcf_var_id', 'mseq', 'mseq_no_adapt', 'ref', 'new', 'ref_aa', 'alt_aa', 'mut_type', 'pam_seq',
            'pam_mut_annot', 'pam_mut_sgrna_id', 'vcf_var_in_const', 'oligo_length']
@@ -222,13 +222,129 @@ def replay_background(ctx: Ctx, case: dict, accept) -> bool:
                for x in sub.violations)
 
 
+# ---------------------------------------------------------------- S-api: get_gpo_ctx on the real database
+
+CTX_IMPORTS = ['Model.Base', 'Model.Pattern', 'Model.Gpo', 'Model.GpoTable', 'Model.Context', 'Model.ContextTable']
+
+
+def impl_ctx(args):
+    """(variants [(pos, ref_len, alt_len)] in table order, (a, b)) -> [ctx.start, ctx.end, 0] | [ctx.start, ctx.end, 1, alt_length, ALT position of
+    every position of the returned context] | [error code]: the real get_gpo_ctx on the real schema."""
+    import sqlite3
+    vs, (a, b) = args
+    common.use_repo()
+    from valiant.db import init_db
+    from valiant.sge_proc import get_gpo_ctx
+    from valiant.uint_range import UIntRange
+    conn = sqlite3.connect(':memory:')
+    try:
+        init_db(conn)
+        conn.cursor().executemany('insert into background_variants(var_id,start,ref,alt) values(?,?,?,?)',
+                                  [(f'v{i}', p, 'A' * rl, 'C' * al) for i, (p, rl, al) in enumerate(vs)])
+        conn.commit()
+        try:
+            g, c = get_gpo_ctx(conn, UIntRange(a, b))
+        except Exception as ex:
+            return [{'ValueError': -2, 'OutOfBoundsVar': -2, 'OverlappingVar': -2, 'IndexError': -3, 'RuntimeError': -4, 'AssertionError': -5}.get(type(ex).__name__, -9)]
+        if g is None:
+            return [c.start, c.end, 0]
+        return [c.start, c.end, 1, g.alt_length] + [-1 if (q := g.ref_to_alt_position(p)) is None else q for p in range(c.start, c.end + 1)]
+    finally:
+        conn.close()
+
+
+def gen_ctx_case(rng):
+    """Disjoint variants around a context [a, b]: anywhere, and chains that end exactly one base before the place the previous
+    widening stopped (each round of the loop reaches the next one)."""
+    a = rng.randint(8, 40)
+    b = a + rng.randint(0, 25)
+    vs, taken = [], set()
+
+    def put(p, rl, al):
+        span = set(range(p, p + max(rl, 1)))
+        if p < 1 or span & taken:
+            return False
+        taken.update(span)
+        vs.append((p, rl, al))
+        return True
+
+    def shape():
+        k = rng.choice(['snv', 'snv', 'ins', 'del', 'del', 'mnv'])
+        return {'snv': (1, 1), 'ins': (0, rng.randint(1, 3)), 'del': (rng.randint(1, 3), 0), 'mnv': (2, 2)}[k]
+    if rng.random() < 0.6:
+        # a variant on the first base of the context, then a chain of variants each ending right before the previous one started
+        rl, al = shape()
+        cur = a - rng.choice([0, 0, 0, 1])
+        put(cur, rl, al)
+        for _ in range(rng.randint(1, 4)):
+            rl, al = shape()
+            gap = rng.choice([1, 1, 1, 2, 3])          # 1 = ends on the nucleotide the widening adds
+            start = cur - gap - max(rl, 1) + 1
+            if start < 1 or not put(start, rl, al):
+                break
+            cur = start
+    for _ in range(rng.randint(0, 4)):
+        rl, al = shape()
+        put(rng.choice([rng.randint(a, b), b + rng.randint(-2, 4), max(1, a - rng.randint(1, 8))]), rl, al)
+    rng.shuffle(vs)
+    return vs, (a, b)
+
+
+def context_stage(ctx: Ctx):
+    cases = [gen_ctx_case(ctx.rng) for _ in range(ctx.n(1500, 20000))]
+    cases.insert(0, ([(67, 1, 0), (68, 1, 1), (75, 0, 2)], (68, 103)))        # the input of findings/C06/context_extension_reaches_further_variant
+    tables = pool_map(impl_ctx, cases, chunksize=64)
+    exprs = []
+    for (vs, (a, b)), t in zip(cases, tables):
+        ctx.evaluations += 1
+        exprs.append(f'table_agrees (ctx_table {coq_list(f"mkVS {p} {rl} {al}" for p, rl, al in vs)} (mkRange {a} {b})) {coq_list(coq_z(x) for x in t)}')
+        case = {'surface': 'api', 'kind': 'context', 'vs': [list(v) for v in vs], 'range': [a, b], 'impl': t[:4]}
+        if len(t) == 1:
+            ctx.violation('spec_violation', f'context: get_gpo_ctx raised ({t[0]}) on disjoint variants {vs} for [{a}, {b}]', case)
+            continue
+        cs, ce = t[0], t[1]
+        reach = [v for v in vs if cs <= v[0] <= ce or cs <= v[0] + max(0, v[1] - 1) <= ce]
+        ctx.count('context_rounds:' + ('none' if not reach else 'widened' if (cs, ce) != (a, b) else 'unchanged'))
+        if len(reach) >= 2 and cs < a - 1:
+            ctx.nontriv(('ctx', tuple(vs), a, b))
+        if not (cs <= a and b <= ce):
+            ctx.violation('spec_violation', f'context: returned context [{cs}, {ce}] does not contain [{a}, {b}]', case)
+        elif t[2] != (1 if reach else 0):
+            ctx.violation('spec_violation', f'context: offsets {"missing" if reach else "built"} although {len(reach)} variants lie in [{cs}, {ce}]', case)
+        elif reach and t[3] != (ce - cs + 1) + sum(al - rl for _, rl, al in reach):
+            ctx.violation('spec_violation', f'context: ALT length {t[3]} of the offsets over [{cs}, {ce}] is not its length plus the net change of the '
+                          f'{len(reach)} variants it reaches ({(ce - cs + 1) + sum(al - rl for _, rl, al in reach)}): variants {sorted(vs)} asked [{a}, {b}]', case)
+    bad, err = coq_eval(CTX_IMPORTS, exprs, chunk=300)
+    ctx.corr['cases'] += len(exprs)
+    if err:
+        ctx.violation('correspondence', 'model evaluation failed: ' + err[:300], broken='coqc cases (C06 context)', no_input=True)
+    for i in bad[:30]:
+        ctx.corr['disagreements'] += 1
+        ctx.violation('correspondence', f'get_gpo_ctx differs from the model for variants {cases[i][0]} in {cases[i][1]}',
+                      {'surface': 'api', 'kind': 'context_model', 'vs': [list(v) for v in cases[i][0]], 'range': list(cases[i][1]), 'impl': tables[i]},
+                      broken='correspondence S-api sge_proc.get_gpo_ctx (Model/Context.v)')
+    ctl = []
+    for e in exprs[1:4]:
+        head, _, tail = e.rpartition('[')
+        ctl.append(head + '[' + tail.replace(';', '; 77;', 1))
+    badc, _ = coq_eval(CTX_IMPORTS, ctl)
+    ctx.controls['run'] += len(ctl)
+    ctx.controls['rejected'] += len(badc)
+    if len(badc) != len(ctl):
+        ctx.violation('control', 'comparator accepted a perturbed context table', broken='negative control', no_input=True)
+    ctx.sample({'context_case': {'variants(pos,ref_len,alt_len)': cases[0][0], 'asked': list(cases[0][1]), 'impl': tables[0][:6]}})
+
+
 def run(ctx: Ctx):
+    context_stage(ctx)
     files(ctx)
     return {'rule': 'Metamorphic on the real tool: random SGE designs with background SNV/MNV anywhere and non-coding insertions/deletions upstream of, inside and '
                     'downstream of the targetons (with BED masks, PAM edits, custom variants, 1-3 targetons) are run next to the same design on the pre-edited genome '
                     '(reference = splice of the unmasked variants, every coordinate lifted): rows must correspond one-to-one on all content columns except those touching '
                     'a shift, with mut_position/ref_start/ref_end/MAVE offsets being the REF images; background_seq, background_variants checked against the spec. '
-                    'Non-trivial = targeton with a coordinate-shifting variant at or before its end.'}
+                    'Non-trivial = targeton with a coordinate-shifting variant at or before its end. S-api: the real get_gpo_ctx on the real schema (in-memory SQLite) for '
+                    'disjoint variant sets around a context, with chains that each round of the widening loop reaches: returned context, ALT length and the ALT image of every '
+                    'position = Coq model (Model/Context.v, vm_compute), and = the closure spec (length + net change of the variants the returned context reaches).'}
 
 
 def _case_pair(c):
@@ -256,6 +372,22 @@ def replay(ctx: Ctx, path: str) -> int:
         v = json.load(fh)
     c = v.get('case', {})
     ctx.known = []
+    if c.get('kind') in ('context', 'context_model'):
+        vs, (a, b) = [tuple(v) for v in c['vs']], c['range']
+        t = impl_ctx((vs, (a, b)))
+        bad = len(t) == 1
+        if not bad:
+            reach = [v for v in vs if t[0] <= v[0] <= t[1] or t[0] <= v[0] + max(0, v[1] - 1) <= t[1]]
+            bad = not (t[0] <= a and b <= t[1]) or t[2] != (1 if reach else 0) or (bool(reach) and t[3] != (t[1] - t[0] + 1) + sum(al - rl for _, rl, al in reach))
+        if not bad:
+            e = f'table_agrees (ctx_table {coq_list(f"mkVS {p} {rl} {al}" for p, rl, al in vs)} (mkRange {a} {b})) {coq_list(coq_z(x) for x in t)}'
+            badm, err = coq_eval(CTX_IMPORTS, [e])
+            bad = bool(badm or err)
+        if bad:
+            print(f'VIOLATION property=C06 replay={path}')
+            return 1
+        print('replay: property holds on this input now')
+        return 0
     if 'design' not in c:
         print('replay: obligation-only replay file')
         return 0
